@@ -456,7 +456,9 @@ def run(ctx):
     spec_validation(ctx, ctx.scale(300, 4000))
     # 5. known findings replay
     for k in ctx.known:
-        if k.get('status') == 'known' and k.get('replay_source'):
+        # listed findings (still failing -> KNOWN-FINDING) and fixed ones (must stay fixed) are replayed alike
+        if k.get('replay_source'):
+            ctx.count()
             why = roundtrip_source(k['replay_source']) or roundtrip_tree(ast.parse(k['replay_source']))
             if why:
                 ctx.add_violation({'input': {'source': k['replay_source']}, 'what': why, 'found_by': 'known', 'oracle': 'roundtrip',
